@@ -29,6 +29,16 @@ alone (each call gets the response with its id that arrived ON ITS CONNECTION; a
 raises, nor hangs, nor completes anything here), and the whole process is replayed, in its real order, through the
 compiled model of a process (`Nx.RmcClient.lift`: a list of independent connection states, `conn <i>` selects one),
 which must predict every connection's ids, outcomes, warnings and final white-box state.
+Method ids (`gen_methods`, `gen_pairs`): calls whose method id ranges over the whole u32 range - bit 15 (the bit a success
+response sets in the method word it carries back) and higher bits set - answered with success and errors by scripted peers
+that echo the request frame as a conforming peer does, and by the library itself: two RMCClient objects as the two ends of
+one connection, each with servers, so that a call is answered by the other end's handle_request (`oracle_pair`: the handler
+was entered with exactly the method / body passed to request() and the call completed with what that handler answered).
+Callers that end while suspended (`gen_sendfail`): the transport's send() of a request raises, or the caller is cancelled
+inside send() (back pressure, queued for / holding the transport's send lock) or while waiting for its response, while
+other calls are outstanding and further calls follow. Log line `abort t` = the model's `AOp.abort` (the frame disappears,
+the object is untouched). Oracle: the surviving calls complete with the answers to their own requests, later calls never
+with anybody else's, and - in every family - two calls outstanding at the same time under one call id is a violation.
 """
 import copy, itertools, struct, multiprocessing, os, pickle, re, subprocess, sys
 import rmc_client_sim as R
@@ -40,7 +50,7 @@ M32 = 0xFFFFFFFF
 # ---------------------------------------------------------------- scenario construction
 def mk(n, perm, kinds, close_pos, close_kind, ypol, rng, start_id=1, extras=None, noresp=(), send_yields=None,
        late=None, after_close_calls=0, first_yield=1, fam="", addressed=False, servers=None, spawn_close=0,
-       second_close=None, reply_yields=0):
+       second_close=None, reply_yields=0, opts=None, anshow=None):
     """n calls; responses delivered in the order `perm` (indices of calls); `extras[j]` = extra steps
     inserted before the j-th response (j = n: after the last); close after `close_pos` responses.
     addressed: the peer answers *request messages* (["ans", task, ...]: the response echoes whatever call id the
@@ -63,8 +73,13 @@ def mk(n, perm, kinds, close_pos, close_kind, ypol, rng, start_id=1, extras=None
     def y():
         c = ypol(rng)
         if c: steps.append(["yield", c])
+    opts = opts or {}
+    anshow = anshow or {}
+    def start_step(k):
+        st = ["start", 1 if k in noresp else 0, (send_yields or {}).get(k, 0)]
+        return st + [dict(opts[k])] if k in opts else st
     for k in order:
-        steps.append(["start", 1 if k in noresp else 0, (send_yields or {}).get(k, 0)])
+        steps.append(start_step(k))
         alloc(k); started(k)
     if first_yield: steps.append(["yield", first_yield])
     pserial = [0]
@@ -79,7 +94,10 @@ def mk(n, perm, kinds, close_pos, close_kind, ypol, rng, start_id=1, extras=None
     def resp(k, kind):
         s = serial.get(k, 0); serial[k] = s + 1
         if addressed:
-            return ["ans", tasknum[k], "ok" if kind == "ok-empty" else kind, s]
+            return ["ans", tasknum[k], "ok" if kind == "ok-empty" else kind, s] + ([anshow[k]] if k in anshow else [])
+        if k in opts and "method" in opts[k]:
+            # a conforming peer echoes the request's method with bit 15 set
+            return ["resp", ids[k], kind, s, {"std": opts[k]["method"] | 0x8000, "same": opts[k]["method"], "other": 0x8001}[anshow.get(k, "std")]]
         return ["resp", ids[k], kind, s]
     closed = False
     def do_close():
@@ -93,7 +111,7 @@ def mk(n, perm, kinds, close_pos, close_kind, ypol, rng, start_id=1, extras=None
         if j == close_pos: do_close()
         for k, pos in late.items():
             if pos == j:
-                steps.append(["start", 1 if k in noresp else 0, (send_yields or {}).get(k, 0)])
+                steps.append(start_step(k))
                 if not closed: alloc(k)
                 started(k)
                 steps.append(["yield", 1])
@@ -215,6 +233,190 @@ def gen_scenarios(ctx):
     out += gen_oneway(ctx)
     out += gen_servers(ctx)
     out += gen_bidir(ctx)
+    out += gen_methods(ctx)
+    out += gen_sendfail(ctx)
+    return out
+
+
+# the method id of a request is a u32; a success response carries it back with bit 15 set (method | 0x8000)
+METHOD_IDS = [0, 1, 2, 0x7FFF, 0x8000, 0x8001, 0x8002, 0x8004, 0xFFFF, 0x10000, 0x18000, 0x18004, 0x7FFF8000, 0x7FFFFFFF,
+              0x80000000, 0x80008002, 0xFFFF7FFF, 0xFFFF8000, 0xFFFFFFFF]
+# handlers told by the method id what to do (FakeServer.handle reads the low 8 bits), the rest of the word anywhere
+PREQ_HIGH = [0x8001, 0x8002, 0x8000, 0x18004, 0x8011, 0x8003, 0x80000001, 0xFFFF8002, 0xFFFFFF01, 0xFFFFFF12, 0xFFFFFFFF, 0x7FFF8005]
+
+
+def rand_method_id(rng):
+    r = rng.random()
+    if r < 0.4: return rng.choice(METHOD_IDS)
+    if r < 0.7: return rng.getrandbits(32) | 0x8000
+    if r < 0.85: return rng.getrandbits(32) & ~0x8000
+    return rng.getrandbits(16)
+
+
+def gen_methods(ctx):
+    """F11: the method id of a call over its whole range (u32) — in particular ids with bit 15 set, which is the bit a success
+    response sets in the method word it carries back — answered with success and with errors by a scripted peer that echoes
+    what the request frame carried (as a conforming peer does: protocol, method | 0x8000), by call id and by addressee; 1 call x every boundary id x every kind, 2..3 calls
+    with different ids x every response order; requests of the peer with such method ids under the ids of our outstanding
+    calls, to registered servers and to nobody, at every placement; random mixes with strays, closures, one-way calls."""
+    rng, quick = ctx.rng, ctx.tier == "quick"
+    out = []
+    for m in METHOD_IDS + [rng.getrandbits(32) | 0x8000 for _ in range(6)]:
+        for kind in ("ok", "err", "err-nobit", "ok-empty"):
+            for adr, how in ((True, "std"), (False, "std")):
+                if adr and kind == "ok-empty": continue
+                out.append(mk(1, (0,), [kind], None, None, y1, rng, addressed=adr, opts={0: {"method": m}}, anshow={0: how},
+                              fam="method1:%s" % ("bit15" if m & 0x8000 else "plain")))
+    tuples = []
+    for n in (2, 3):
+        for _ in range(24 if quick else 200):
+            ms = [rand_method_id(rng) for _ in range(n)]
+            if not any(x & 0x8000 for x in ms): ms[rng.randrange(n)] |= 0x8000
+            tuples.append(ms)
+        tuples.append([0x8000 + k for k in range(n)]); tuples.append([0x8001] * n); tuples.append([0xFFFFFFFF, 0x8002, 1][:n])
+    for ms in tuples:
+        n = len(ms)
+        for perm in itertools.permutations(range(n)):
+            for yp in ("y1", "batch"):
+                for adr in (True, False):
+                    ck = rng.choice([None, None, None] + CLOSE_KINDS)
+                    out.append(mk(n, perm, akinds(rng, n) if adr else rkinds(rng, n), rng.randint(0, n) if ck else None, ck, YP[yp], rng, addressed=adr,
+                                  opts={k: {"method": ms[k]} for k in range(n)}, anshow={k: "std" for k in range(n)},
+                                  noresp={k for k in range(n) if rng.random() < 0.1}, fam="method%d" % n))
+    # requests of the peer whose method ids have bit 15 / higher bits set, under the ids of our outstanding calls
+    for n in (1, 2):
+        for mq in (1, 2):
+            for perm in itertools.permutations(range(n)):
+                for slots in itertools.combinations_with_replacement(range(n + 1), mq):
+                    for rep in range(3):
+                        nserv = rng.choice([1, 1, 2])
+                        extras = {}
+                        for q, slot in enumerate(slots):
+                            proto = 0x50 + rng.randrange(nserv) if rng.random() < 0.8 else rng.choice([10, 0x21])
+                            extras.setdefault(slot, []).append(("preq", proto, rng.choice(PREQ_HIGH), ("call", rng.randrange(n)) if rep else ("abs", 1 + q)))
+                        out.append(mk(n, perm, rkinds(rng, n), None, None, rng.choice([y1, ybatch]), rng, extras=extras, servers=[["ret"]] * nserv, spawn_close=1,
+                                      opts={k: {"method": rng.choice(PREQ_HIGH)} for k in range(n)}, reply_yields=rng.choice([0, 0, 1]), fam="method:peer-request"))
+    for _ in range(400 if quick else 40000):
+        n = rng.randint(1, 5)
+        perm = list(range(n)); rng.shuffle(perm)
+        extras = {}
+        for _ in range(rng.choice([0, 0, 1, 2])):
+            j = rng.randint(0, n)
+            extras.setdefault(j, []).append(rng.choice([("unknown", rng.choice([0, 7, 100, M32]), "ok"), ("nextid",), ("dup", rng.randrange(n), rng.choice(["ok", "err"])),
+                                                        ("preq", rng.choice([0x50, 0x50, 10]), rng.choice(PREQ_HIGH), ("call", rng.randrange(n)))]))
+        ck = rng.choice([None, None] + CLOSE_KINDS)
+        adr = rng.random() < 0.5
+        out.append(mk(n, perm, akinds(rng, n) if adr else rkinds(rng, n), rng.randint(0, n) if ck else None, ck, yrand, rng, extras=extras,
+                      noresp={k for k in range(n) if rng.random() < 0.15}, late={k: rng.randint(0, n) for k in range(n) if rng.random() < 0.2},
+                      send_yields={k: rng.randint(1, 3) for k in range(n) if rng.random() < 0.2}, addressed=adr, servers=[["ret"]], spawn_close=1,
+                      opts={k: {"method": rand_method_id(rng)} for k in range(n)}, anshow={k: "std" for k in range(n)},
+                      start_id=rng.choice([1, 1, 0x7FFF, 0x8000, 0xFFFFFFFE]), fam="method:mixed"))
+    return out
+
+
+EXC_KINDS = ["os", "broken", "closed", "custom"]
+
+
+def mk_sendfail(rng, n0, fails, m, perm, kinds, transport="gate", pre=0, failed_ans="first", close=None, fam="sendfail"):
+    """n0 calls are started; those in `fails` = {k: (where, how, delivered)} end while suspended: where = "send" (the
+    transport's send() of that request is suspended - back pressure, or holding the transport's send lock with the later
+    senders queued behind it - and then raises `how` / the caller is cancelled), "now" (send() raises at once), "slow" /
+    "wait" (cancelled during a send that takes a few loop iterations / while waiting for the response). The other calls
+    are outstanding meanwhile (`pre` of them are answered before the failure). Then m further calls are made. The peer
+    answers the REQUEST MESSAGES it received (every surviving call's, in the order `perm`; the failed one's too when its
+    datagram had reached the peer), success or error; finally the connection may close."""
+    steps = []
+    for k in range(n0):
+        f = fails.get(k)
+        if f is None: steps.append(["start", 0, 0])
+        elif f[0] == "send": steps.append(["start", 0, 0, {"gate": 1}])
+        elif f[0] == "now": steps.append(["start", 0, 0, {"fail_now": [f[1], f[2]]}])
+        elif f[0] == "slow": steps.append(["start", 0, 4])
+        else: steps.append(["start", 0, 0])
+    lock = transport == "lock"
+    steps.append(["yield", 2 + (2 * n0 if lock else 0)])
+    first_f = min(fails) if fails else n0
+    live = [k for k in range(n0) if k not in fails]
+    early = [k for k in live if not lock or k < first_f][:pre]
+    for k in early:
+        steps.append(["ans", k, kinds[k], 0]); steps.append(["yield", 1])
+    for k in sorted(fails):
+        where, how, delivered = fails[k]
+        if where == "now": continue
+        steps.append(["cancel", k, delivered] if how == "cancel" else ["fail", k, how, delivered])
+        steps.append(["yield", rng.choice([0, 1, 3])])
+    steps.append(["yield", 3 + (2 * n0 if lock else 0)])
+    for j in range(m):
+        steps.append(["start", 0, 0])
+    if m: steps.append(["yield", 2 + (2 * m if lock else 0)])
+    rest = [k for k in perm if k not in fails and k not in early]
+    answered_failed = [k for k in sorted(fails) if fails[k][2]]
+    seq = [("a", k) for k in rest]
+    for k in answered_failed:
+        pos = 0 if failed_ans == "first" else len(seq) if failed_ans == "last" else rng.randint(0, len(seq))
+        seq.insert(pos, ("f", k))
+    cpos = close[0] if close else None
+    for j, (_, k) in enumerate(seq):
+        if cpos == j: steps.append([close[1]]); steps.append(["yield", 1])
+        steps.append(["ans", k, kinds[k], 0]); steps.append(["yield", rng.choice([0, 1, 1, 2])])
+    if close and (cpos is None or cpos >= len(seq)): steps.append([close[1]])
+    steps.append(["yield", 3])
+    sc = {"start_id": 1, "steps": steps, "fam": fam, "addressed": 1, "spawn_close": 1}
+    if lock: sc["send_lock"] = 1
+    return sc
+
+
+def gen_sendfail(ctx):
+    """F12: a caller that fails or is cancelled while suspended inside the transport's send() - or while waiting for its response -
+    with other calls outstanding and further calls made afterwards. Exhaustive over: 1..3 initial calls x which one fails
+    (oldest / middle / newest) x exception / cancellation x transport (independent sends with back pressure on the failing one /
+    a send lock that the failing sender holds while the later ones queue behind it / a send that raises at once) x the
+    failing datagram reached the peer or not x 0..2 later calls x 0..1 calls answered before the failure x the order in
+    which the peer answers the surviving requests (all orders up to 3 survivors, sampled beyond in quick); cancellation
+    during a slow send and while waiting; two callers failing; closures; random mixes."""
+    rng, quick = ctx.rng, ctx.tier == "quick"
+    out = []
+    for n0 in (1, 2, 3):
+        for f in range(n0):
+            for transport in ("gate", "lock", "now"):
+                for how in ("cancel", "exc"):
+                    if transport == "now" and how == "cancel": continue
+                    for delivered in (0, 1):
+                        for m in (0, 1, 2):
+                            surv = [k for k in range(n0 + m) if k != f]
+                            for pre in ((0, 1) if (n0 > 1 and transport != "now") else (0,)):
+                                perms = list(itertools.permutations(surv))
+                                if quick and len(perms) > 6: perms = rng.sample(perms, 4)
+                                for perm in perms:
+                                    h = rng.choice(EXC_KINDS) if how == "exc" else "cancel"
+                                    close = (rng.randint(0, len(surv)), rng.choice(CLOSE_KINDS)) if rng.random() < 0.15 else None
+                                    out.append(mk_sendfail(rng, n0, {f: ("now" if transport == "now" else "send", h, delivered)}, m, perm, akinds(rng, n0 + m),
+                                                           transport=transport, pre=pre, failed_ans=rng.choice(["first", "first", "last", "any"]), close=close,
+                                                           fam="sendfail:%s:%s" % (transport, how)))
+    # cancelled during a slow send / while waiting for the response (a timeout around request())
+    for n0 in (1, 2, 3):
+        for f in range(n0):
+            for where in ("slow", "wait"):
+                for m in (0, 1, 2):
+                    surv = [k for k in range(n0 + m) if k != f]
+                    for perm in itertools.permutations(surv):
+                        out.append(mk_sendfail(rng, n0, {f: (where, "cancel", 1)}, m, perm, akinds(rng, n0 + m), transport=rng.choice(["gate", "lock"]),
+                                               pre=rng.choice([0, 1]), failed_ans=rng.choice(["first", "last", "any"]), fam="sendfail:cancel-" + where))
+    # several callers failing, 4 initial calls, closures
+    for _ in range(500 if quick else 50000):
+        n0 = rng.randint(2, 4); m = rng.randint(0, 3)
+        fs = rng.sample(range(n0), rng.choice([1, 2, 2]))
+        transport = rng.choice(["gate", "lock"])
+        fails = {}
+        for k in fs:
+            where = rng.choice(["send", "send", "now", "slow", "wait"])
+            if transport == "lock" and where == "send" and any(v[0] == "send" for v in fails.values()): where = "wait"
+            fails[k] = (where, "cancel" if where in ("slow", "wait") else rng.choice(EXC_KINDS + (["cancel"] if where == "send" else [])), 1 if where in ("slow", "wait") else rng.randint(0, 1))
+        surv = [k for k in range(n0 + m) if k not in fails]
+        rng.shuffle(surv)
+        close = (rng.randint(0, len(surv)), rng.choice(CLOSE_KINDS)) if rng.random() < 0.3 else None
+        out.append(mk_sendfail(rng, n0, fails, m, surv, akinds(rng, n0 + m), transport=transport, pre=rng.choice([0, 0, 1, 2]),
+                               failed_ans=rng.choice(["first", "last", "any"]), close=close, fam="sendfail:mixed"))
     return out
 
 
@@ -506,15 +708,24 @@ def oracle(sim):
     crash_at = next((i for i, l in enumerate(log) if l == "loopcrash"), None)
     end = len(log)
     waiting = [c for c in sim.callers if c["sent_id"] is not None and not c["noresp"]]
-    # H-ids: calls outstanding at the same time carry distinct ids (else the property's premise fails)
+    # H-ids: calls outstanding at the same time carry distinct ids. The counter is 32 bits wide: below 2^32 - 1 calls on the
+    # connection (Nx.C10.few_calls_distinct) a collision is the implementation handing out the id of an outstanding call -
+    # the peer cannot tell the two calls apart, one of them gets the other's response or none; beyond, the property's premise fails
     for a in waiting:
         for b in waiting:
-            if a is not b and a["sent_id"] == b["sent_id"]:
+            if a is not b and a["sent_id"] == b["sent_id"] and a["task"] < b["task"]:
                 a_end = a["done_at"] if a["outcome"] is not None else end
                 if b["call_at"] <= a_end and a["call_at"] <= (b["done_at"] if b["outcome"] is not None else end):
-                    return []
+                    if len(sim.callers) >= M32: return []
+                    return [("live-ids-collide", "tasks %d and %d are outstanding at the same time under the same call id %d (%d calls were made on the connection): "
+                             "task %d registered at op %d and %s; task %d registered at op %d and %s%s" % (
+                                 a["task"], b["task"], a["sent_id"], len(sim.callers),
+                                 a["task"], a["call_at"], "ended with %r at op %d" % (a["outcome"], a["done_at"]) if a["outcome"] is not None else "never completed",
+                                 b["task"], b["call_at"], "ended with %r at op %d" % (b["outcome"], b["done_at"]) if b["outcome"] is not None else "never completed",
+                                 abort_note(sim)))]
     for c in sim.callers:
         t = c["task"]
+        if aborted(c): continue      # its send() raised / it was cancelled (injected by the scenario): it ended with exactly that
         if c["sent_id"] is None:
             if c["outcome"] is None:
                 bad.append(("hang-at-entry", "task %d never completed although request() had not even sent" % t))
@@ -569,7 +780,21 @@ def oracle(sim):
     if sim.sc.get("addressed"):
         bad += oracle_addressed(sim, crash_at)
     bad += oracle_peer_requests(sim, crash_at)
-    return bad
+    note = abort_note(sim)
+    return [(k, w + note) for k, w in bad] if note else bad
+
+
+def aborted(c):
+    """the scenario made this caller's transport send() raise, or cancelled the caller, and request() ended with exactly that"""
+    return bool(c.get("aborted")) and c["outcome"] is not None and (c["outcome"] == "cancelled" or c["outcome"].startswith("exc "))
+
+
+def abort_note(sim):
+    ab = [c for c in sim.callers if c.get("aborted")]
+    if not ab: return ""
+    return " [before that: " + "; ".join("the request() of task %d (call id %r) ended with %r at op %d while suspended (%s)" % (
+        c["task"], c["sent_id"], c["outcome"], c["done_at"],
+        "its datagram had reached the peer" if c.get("delivered", True) else "its datagram never reached the peer") for c in ab) + "]"
 
 
 def oracle_addressed(sim, crash_at):
@@ -586,7 +811,7 @@ def oracle_addressed(sim, crash_at):
         c = sim.callers[t]
         return "task %d's %srequest (call id %r)" % (t, "ONE-WAY " if c["noresp"] else "", c["sent_id"])
     for c in sim.callers:
-        if c["sent_id"] is None or c["noresp"] or c["outcome"] in (None, "closed"): continue
+        if c["sent_id"] is None or c["noresp"] or c["outcome"] in (None, "closed") or aborted(c): continue
         t = c["task"]
         # its own answer = the first datagram, taken from the transport after the call registered, that the peer sent in answer to
         # this task's request — or that answers no request at all (an unaddressed stray response) but carries this call's id: the
@@ -712,6 +937,97 @@ def gen_multi(ctx, singles):
     return out
 
 
+# what the library's own request handler answers, by the convention of rmc_client_sim.FakeServer.handle (method & 15)
+PAIR_ERR = {2: 0x80010006,      # raise RMCError("Core::AccessDenied")
+            3: 0x80040002,      # TypeError  -> PythonCore::TypeError
+            4: 0x80040007,      # KeyError   -> PythonCore::KeyError
+            5: 0x80040001}      # ValueError -> PythonCore::Exception
+
+
+def gen_pairs(ctx):
+    """F13: the peer is the library itself. Two RMCClient objects are the two ends of ONE connection (what one sends the other
+    receives, both count their calls from 1); each end is started with servers, so a call of one end is answered by the
+    other end's handle_request (success with the handler's output, the handler's RMCError, PythonCore::* for other
+    exceptions, Core::NotImplemented for an unregistered protocol). 1..3 calls per end whose METHOD IDS range over the
+    whole u32 range (bit 15 and higher bits set), handlers that answer at once or after a while, calls in both directions
+    at once. Each call must complete with the answer the other end's handler gave to ITS request, and that handler must
+    have been entered with exactly the method id and body the caller passed."""
+    rng, quick = ctx.rng, ctx.tier == "quick"
+    out = []
+    def side(tag, methods, protos, nserv, yields):
+        steps = []
+        for m, p in zip(methods, protos):
+            steps.append(["start", 0, rng.choice([0, 0, 0, 1]), {"method": m, "protocol": p}])
+            if yields and rng.random() < 0.5: steps.append(["yield", rng.choice([1, 2])])
+        steps.append(["yield", 2])
+        fy = sum(((m >> 4) & 15) + 6 for m in methods)
+        return {"start_id": 1, "steps": steps, "addressed": 1, "servers": [["ret"]] * nserv, "spawn_close": 1, "body_tag": tag, "final_yields": fy,
+                "reply_yields": rng.choice([0, 0, 1])}
+    def pair(ma, mb, fam, nserv=None, yields=True):
+        na = nserv or rng.choice([1, 1, 2]); nb = nserv or rng.choice([1, 1, 2])
+        pa = [0x50 + rng.randrange(nb) if rng.random() < 0.9 else rng.choice([10, 0x21, 0x50 + nb]) for _ in ma]
+        pb = [0x50 + rng.randrange(na) if rng.random() < 0.9 else rng.choice([10, 0x21, 0x50 + na]) for _ in mb]
+        a, b = side("a", ma, pa, na, yields), side("b", mb, pb, nb, yields)
+        a["final_yields"] += b["final_yields"]
+        order = [0] * len(a["steps"]) + [1] * len(b["steps"])
+        if rng.random() < 0.6: rng.shuffle(order)
+        out.append({"multi": [a, b], "order": order, "pair": 1, "fam": fam})
+    for m in METHOD_IDS + PREQ_HIGH + [rng.getrandbits(32) | 0x8000 for _ in range(10)]:
+        pair([m], [], "pair1:" + ("bit15" if m & 0x8000 else "plain"))
+        pair([m], [m], "pair1+1")
+    for _ in range(500 if quick else 30000):
+        ma = [rand_pair_method(rng) for _ in range(rng.randint(1, 3))]
+        mb = [rand_pair_method(rng) for _ in range(rng.choice([0, 0, 1, 2, 3]))]
+        pair(ma, mb, "pair:mixed")
+    return out
+
+
+def rand_pair_method(rng):
+    r = rng.random()
+    if r < 0.35: return rng.choice(PREQ_HIGH)
+    if r < 0.6: return rng.choice(METHOD_IDS)
+    # any u32 with bit 15 set / clear; handlers take at most 3 loop iterations
+    m = (rng.getrandbits(32) & ~0xF0) | (rng.choice([0, 0, 1, 3]) << 4)
+    return m | 0x8000 if rng.random() < 0.7 else m & ~0x8000
+
+
+def oracle_pair(msc, sims):
+    """both ends are the library: every completed call of one end is compared with what its arguments mean to the other end's
+    servers (end to end, independent of any frame) -> [(connection, key, why)]"""
+    bad = []
+    for c, sim in enumerate(sims):
+        other = sims[1 - c]
+        nserv = len(other.sc.get("servers") or [])
+        tag = sim.sc.get("body_tag", "")
+        disp = {}
+        for idx, srv, method, body in other.dispatches:
+            disp.setdefault(body, []).append((srv, method))
+        for q in sim.callers:
+            if q["sent_id"] is None or q["noresp"] or "method" not in q: continue
+            m, p, body = q["method"], q.get("protocol", 10), b"Q%d" % q["task"] + tag.encode()
+            what = "connection %d, task %d: request(protocol 0x%x, method 0x%x, body %r) (call id %d) to a peer that is the library's own handle_request with %d server(s)" % (
+                c, q["task"], p, m, body, q["sent_id"], nserv)
+            if 0x50 <= p < 0x50 + nserv:
+                got = disp.get(body.hex(), [])
+                if got and got != [(p - 0x50, m)]:
+                    bad.append((c, "pair-method", "%s: the peer's handler was entered with (server, method) = %s, expected once with (%d, 0x%x)" % (
+                        what, ", ".join("(%d, 0x%x)" % g for g in got), p - 0x50, m)))
+                    continue
+                want = "rmc %d" % PAIR_ERR[m & 15] if (m & 15) in PAIR_ERR else "body " + R.hx(b"ack:" + body)
+                answered = bool(got) and any(l.startswith("handlerret") for l in other.oplog)
+            else:
+                want = "rmc %d" % NOT_IMPLEMENTED
+                answered = True
+            if q["outcome"] is None:
+                # did an answer to this request reach this end?
+                arrived = any(a == q["task"] for a in {int(k): v for k, v in sim.recv_addr.items()}.values())
+                if arrived:
+                    bad.append((c, "pair-hang", "%s never completed although the peer's answer to it arrived (expected %r)" % (what, want)))
+            elif q["outcome"] != want and q["outcome"] != "closed":
+                bad.append((c, "pair-outcome", "%s completed with %r, expected %r" % (what, q["outcome"], want)))
+    return bad
+
+
 def render_op(line):
     if line.startswith("recv "):
         h = line[5:]
@@ -828,9 +1144,9 @@ def run_fresh_multi(msc):
     return [_S(d) for d in run]
 
 
-def oracle_multi(sims):
+def oracle_multi(sims, msc=None):
     """the property for every connection of the process, each judged on its own log alone -> [(connection, key, why)]"""
-    return [(c, key, why) for c, sim in enumerate(sims) for key, why in oracle(sim)]
+    return [(c, key, why) for c, sim in enumerate(sims) for key, why in oracle(sim)] + (oracle_pair(msc, sims) if msc and msc.get("pair") else [])
 
 
 def judge_multi(ctx, mscs, runs, drv):
@@ -862,7 +1178,7 @@ def judge_multi(ctx, mscs, runs, drv):
                                {"scenario": msc, "connection": c, "oplog": sim.oplog, "model": o})
             if diffs: all_diffs.append((c, diffs))
             for k in {(q["outcome"] or "hung").split(" ")[0] for q in sim.callers}: ctx.tag("outcome=" + k)
-        for c, key, why in oracle_multi(sims):
+        for c, key, why in oracle_multi(sims, msc):
             size = (len(sims), sum(len(s.callers) for s in sims), len(msc["order"]))
             cands.setdefault(key, []).append((size, idx, c, why))
         if all_diffs:
@@ -877,7 +1193,7 @@ def judge_multi(ctx, mscs, runs, drv):
                 fresh = run_fresh_multi(mscs[idx])
             except Exception:
                 break
-            hit = next(((c2, w2) for c2, k2, w2 in oracle_multi(fresh) if k2 == key), None)
+            hit = next(((c2, w2) for c2, k2, w2 in oracle_multi(fresh, mscs[idx]) if k2 == key), None)
             if hit:
                 rep = (mscs[idx], fresh, hit[0], hit[1], "confirmed by running this scenario alone in a fresh process"); break
         if rep is None:
@@ -886,8 +1202,8 @@ def judge_multi(ctx, mscs, runs, drv):
         msc, sims, c, why, how = rep
         note = cross_note(sims, c, why)
         ctx.violation("c10:connections:" + key,
-                      "RMCClient, %d live connections in one process, connection %d: %s%s. Schedule of the process: %s" % (
-                          len(sims), c, why, " [" + note + "]" if note else "", schedule_of(sims)),
+                      "RMCClient, %s, connection %d: %s%s. Schedule of the process: %s" % (
+                          "the two ends of one connection (each end an RMCClient with servers)" if msc.get("pair") else "%d live connections in one process" % len(sims), c, why, " [" + note + "]" if note else "", schedule_of(sims)),
                       {"scenario": msc, "failing_connection": c, "schedule": schedule_of(sims, 10 ** 6), "oplogs": [s.oplog for s in sims],
                        "callers": [[{k: (v.hex() if isinstance(v, bytes) else v) for k, v in q.items()} for q in s.callers] for s in sims],
                        "final": [s.final for s in sims], "reproduction": how,
@@ -965,6 +1281,10 @@ def compare(sim, outs):
                 diffs.append(("loop-crash", "%s: model %r real crash=%r" % (l[:60], o, real_crash)))
             if real_warn != model_warn:
                 diffs.append(("warn", "%s: model %r, real warnings %d" % (l[:60], o, real_warn)))
+        elif l.startswith("abort "):
+            t = int(l.split(" ")[1])
+            if o != "aborted %d" % t:
+                diffs.append(("abort", "task %d ended with %r while suspended; model: %r" % (t, callers[t]["outcome"], o)))
         elif l.startswith("wake "):
             t = int(l.split(" ")[1])
             want = o.split(" ", 2)[2] if o.startswith("done ") else o
@@ -1071,10 +1391,22 @@ def run(ctx):
                 "shifted ids and gets them answered with its own data, is closed with calls outstanding, receives duplicates - its registration at every "
                 "point p and the rest at every point q >= p of that schedule; plus random interleavings of 2..3 scenarios of all the families above; "
                 "every connection judged on its own log, the process replayed in real order through the model of a process. "
+                "Method ids over the u32 range (19 boundary ids + random ones with bit 15 / higher bits set): 1 call x every id x success / error / "
+                "non-conforming error / empty body, by call id and by addressee, 2..3 calls with different ids x every response order, requests of the peer "
+                "with such method ids under the ids of our outstanding calls at every placement, random mixes; and with the library itself as the peer: two "
+                "RMCClient objects as the two ends of one connection, each started with servers, 1..3 calls per end (both directions at once), every call "
+                "judged end to end (the other end's handler entered once with exactly the method and body passed to request(); the call completes with what "
+                "that handler answered: output / RMCError / PythonCore::* / Core::NotImplemented). "
+                "Callers ending while suspended: 1..3 initial calls x which one fails x send() raising / cancellation x back pressure on independent sends / "
+                "a transport send lock held by the failing sender with the later ones queued / send() raising at once x datagram delivered or not x 0..2 later "
+                "calls x 0..1 calls answered before the failure x every order of the peer's answers to the surviving requests (sampled beyond 6 orders in quick), "
+                "cancellation during a slow send / while waiting for the response, two callers failing, closures, random mixes (`abort t` in the model). "
+                "In every family two calls outstanding at the same time under one call id (fewer than 2^32 - 1 calls made) is itself a violation. "
                 "Each run's op log is replayed through the Lean model; a case counts as distinct non-trivial per distinct "
                 "scenario with at least one call")
     ctx.assumptions.append("anyio/asyncio wake a task whose Event was set and run the code between two awaits atomically (trusted runtime); "
-                           "RMCClient.client.send does not raise while RMCClient.closed is false (send failures are not modelled)")
+                           "a send() that raises / a cancelled caller is the model's `abort` (the frame is discarded, the object untouched); a send() of an "
+                           "ANSWER to a peer's request (handle_request) that raises is not modelled")
     scs = gen_scenarios(ctx)
     par = min(16, os.cpu_count() or 1)
     sims = run_real(scs, par if ctx.tier != "quick" else min(par, 8))
@@ -1089,7 +1421,7 @@ def run(ctx):
     ctx.extra["peer_requests_dispatched"] = sum(len(sim.dispatches) for sim in sims)
     ctx.extra["peer_requests_colliding_with_outstanding_call"] = sum(n_colliding(sim) for sim in sims)
     # several live connections in one process
-    mscs = gen_multi(ctx, scs)
+    mscs = gen_multi(ctx, scs) + gen_pairs(ctx)
     runs = run_real_multi(mscs, par)
     m_diff, m_first, m_lines, n_overlap, n_conn = judge_multi(ctx, mscs, runs, drv)
     ctx.traces_validated += n_conn
@@ -1117,7 +1449,7 @@ def replay(ctx, path):
     if "multi" in r["scenario"]:
         sims = run_real_multi([r["scenario"]], 1)[0]
         print("schedule:", schedule_of(sims, 10 ** 6))
-        bad = oracle_multi(sims)
+        bad = oracle_multi(sims, r["scenario"])
         for c, sim in enumerate(sims):
             print("--- connection %d" % c)
             for q in sim.callers: print(q)
